@@ -557,6 +557,8 @@ struct ReplyWorld : World {
 					if (boundary) {
 						Bytes m(idlen); for (unsigned k = 0; k < idlen; ++k) m[k] = (uint8_t) (0xfe - k); m[0] = (uint8_t) (0x80 | 0x7e);
 						m.push_back((uint8_t) msgtype::Answer); m.push_back(0); m.push_back('f'); m.push_back('g');
+						// (or a frame too short to hold an id at all: one byte with the reply mark, for id widths of two and more)
+						if (idlen >= 2 && ((uint64_t) op.a & 0x800)) { m.assign(1, (uint8_t) 0x81); st.hit("fault:forged_short_reply_frame"); }
 						Bytes fr = ref::encode(ref::COBS, m); for (uint8_t b : fr) c->wire.push_back(b);
 						log.ev("FORGED reply frame of %zu bytes (id width %u) towards %s", fr.size(), idlen, C.peer[side ^ 1].name); st.hit("fault:forged_reply_frame");
 					}
